@@ -57,7 +57,7 @@ func main() {
 	}
 	var names []string
 	for n := range registry.Probes {
-		if strings.HasPrefix(n, "core_") || strings.HasPrefix(n, "rnd_") {
+		if strings.HasPrefix(n, "core_") || strings.HasPrefix(n, "rnd_") || strings.HasPrefix(n, "bound") {
 			names = append(names, n)
 		}
 	}
@@ -206,7 +206,7 @@ func child(name, outPath string) {
 			continue
 		}
 		// enumerate points
-		points := uniq(clean.Invocations)
+		points := uniq(clean.FaultPoints)
 		dirPoints := uniq(clean.DirCalls)
 		count("operations", 1)
 		count("resolver_points", int64(len(points)))
@@ -461,7 +461,7 @@ func faultName(f univ.Fault) string {
 func classify(o *diffrun.Outcome, pt string, kind ast.Operation) string {
 	for _, e := range o.Got.Events {
 		k := univ.Key{Object: e.Object, Vid: e.Vid, Field: e.Field, Args: e.Args}
-		if e.Kind == "resolver" && k.String() == pt {
+		if (e.Kind == "resolver" || e.Kind == "method") && k.String() == pt {
 			depth := strings.Count(e.Path, ".")
 			inList := strings.Contains(e.Path, "[")
 			nested := strings.Count(e.Path, "[") > 1
